@@ -85,6 +85,8 @@ def scan_trusted(text):
         for p in TRUST_PATTERNS:
             if re.search(p, ml):
                 key = raw.strip()
+                if 'linked: proved in unit' in raw:
+                    break  # a //@stub link: reported under links, the proving unit is checked in the same run
                 if re.search(r'external_body', ml) and ml.strip().startswith('#['):
                     k = no  # 0-based index of next line
                     while k < len(raw_lines) and (m_lines[k].strip() == '' or m_lines[k].strip().startswith('#[')):
@@ -115,6 +117,7 @@ def run_unit(repo, unit, contracts_dir, workdir, rlimit=None, extra_args=(), see
     res['assembled'] = path
     res['rewrites'] = asm.rewrites
     res['extracted'] = asm.fns + asm.items
+    res['links'] = asm.links
 
     # trusted scan against allow-list
     allow_path = os.path.join(contracts_dir, unit + '.trusted')
